@@ -76,6 +76,18 @@ def stream_env(ip):
         raise PyExc(ExcVal("TimeoutError", ()))
     from pyvc.interp import Builtin
     ip.ext_models["asyncio.wait_for"] = Builtin("wait_for", wait_for)
+
+    def open_connection(ip_, args, kw, ctx):
+        """E5 inside an operation (code that re-connects by itself): refused, or a fresh open (reader, writer) whose replies are
+        arbitrary; the frames written to it are a NEW connection's frames (ghost event 'open_connection')"""
+        if args:
+            raise Unsupported("open_connection with positional arguments")
+        ctx.ghost.events.append(("open_connection", dict(kw)))
+        if ctx.fork(2) == 1:
+            raise PyExc(ExcVal("OSError", ("connection refused",)))
+        return (EnvObj("reader", replies=[]), EnvObj("writer"))
+    if "asyncio.open_connection" not in ip.ext_models:
+        ip.ext_models["asyncio.open_connection"] = Builtin("open_connection", open_connection)
     if not hasattr(ip, "env_handlers"):
         ip.env_handlers = {}
     ip.env_handlers["writer"] = writer
